@@ -86,7 +86,7 @@ Fixpoint zip5 (d : list sdesc) (i a b c : list N) : list srow :=
   end.
 
 (* throughput lists: position i takes vals[i] when upd *)
-Fixpoint spec_tp (upd : bool) (vals old : list N) : list N :=
+Fixpoint spec_tp (upd : bool) (vals old : list N) {struct old} : list N :=
   match old with
   | [] => []
   | o :: old' => match vals with
@@ -232,7 +232,7 @@ Definition wf_config (c : agg_config) : bool :=
   Nat.eqb (List.length (c_src_tp c)) 2 &&
   Nat.eqb (List.length (c_dst_tp c)) 2 &&
   list_eqb (c_flow_end c) [src_end_name; dst_end_name] &&
-  nodupb (all_names c) &&
+  nodupb (all_names c) && nodupb (c_nonstats c) &&
   forallb (fun f => negb (mem f (all_names c))) (c_correlate c) &&
   forallb (c_reg c) (added_names c) &&
   forallb octet_names_ok (stat_triples c) &&
